@@ -7,15 +7,17 @@
 #include <string.h>
 #include <stdint.h>
 #include <setjmp.h>
+#include <signal.h>
 
-jmp_buf verif_jb;
-int verif_jb_armed;
+sigjmp_buf verif_jb;
 extern int verif_outcome;
 
 typedef struct { const char *name; void (*fn)(void); } verif_harness_t;
 extern verif_harness_t verif_harness_table[];
 extern int verif_harness_count;
 
+#include <unistd.h>
+static FILE *vout;   /* our own channel: the real code's printf diagnostics go to /dev/null */
 static uint64_t rng_s;
 static uint64_t rng(void) { rng_s ^= rng_s << 13; rng_s ^= rng_s >> 7; rng_s ^= rng_s << 17; return rng_s; }
 static uint64_t hash_acc;
@@ -39,37 +41,44 @@ void verif_input(const char *name, void *p, size_t n)
 void verif_output(const char *name, const void *p, size_t n)
 {
     hash_bytes(name, strlen(name)); hash_bytes(p, n);
-    if (verbose) { printf("OUT %s =", name); for (size_t i = 0; i < n && i < 256; i++) printf(" %02x", ((const unsigned char *)p)[i]); printf("\n"); }
+    if (verbose) { fprintf(vout, "OUT %s =", name); for (size_t i = 0; i < n && i < 256; i++) fprintf(vout, " %02x", ((const unsigned char *)p)[i]); fprintf(vout, "\n"); }
 }
 void verif_check(int ok, const char *msg)
 {
     hash_bytes(&ok, sizeof ok);
     if (!ok) checks_failed_this++;
-    if (mode_replay || (verbose && !ok)) printf("CHECK %s %s\n", ok ? "ok" : "FAILED", msg);
+    if (mode_replay || (verbose && !ok)) fprintf(vout, "CHECK %s %s\n", ok ? "ok" : "FAILED", msg);
 }
-void verif_reject(void) { rejected = 1; longjmp(verif_jb, 2); }
+void verif_reject(void) { rejected = 1; siglongjmp(verif_jb, 2); }
 void verif_native_exit(int outcome, const char *msg)
 {
     if (!verif_outcome) verif_outcome = outcome;
-    if (mode_replay || verbose) printf("EXIT outcome=%d (%s)\n", outcome, msg);
-    if (outcome == 99) { printf("MODEL-LIMIT %s\n", msg); }
-    longjmp(verif_jb, 1);
+    if (mode_replay || verbose) fprintf(vout, "EXIT outcome=%d (%s)\n", outcome, msg);
+    if (outcome == 99) { fprintf(vout, "MODEL-LIMIT %s\n", msg); }
+    siglongjmp(verif_jb, 1);
 }
+
+/* a crash of the code under test (SIGFPE, SIGSEGV, ...) is an outcome (4 = illegal exit), not a failure of the run */
+static void on_signal(int sig) { (void)sig; if (!verif_outcome) verif_outcome = 4; siglongjmp(verif_jb, 1); }
 
 int main(int argc, char **argv)
 {
+    signal(SIGFPE, on_signal); signal(SIGSEGV, on_signal); signal(SIGBUS, on_signal); signal(SIGILL, on_signal);
+    vout = fdopen(dup(1), "w");
+    if (!freopen("/dev/null", "w", stdout)) return 2;
+    if (!freopen("/dev/null", "w", stderr)) return 2;
     if (argc >= 3 && !strcmp(argv[1], "replay")) {
         mode_replay = 1; verbose = 1;
         for (int h = 0; h < verif_harness_count; h++) {
             if (strcmp(verif_harness_table[h].name, argv[2])) continue;
             verif_outcome = 0;
-            int j = setjmp(verif_jb);
+            int j = sigsetjmp(verif_jb, 1);
             if (j == 0) verif_harness_table[h].fn();
-            printf("OUTCOME %d\n", verif_outcome);
-            if (rejected) { printf("REJECTED input violates an ASSUME of the harness\n"); return 3; }
-            return checks_failed_this ? 1 : 0;
+            fprintf(vout, "OUTCOME %d\n", verif_outcome);
+            if (rejected) { fprintf(vout, "REJECTED input violates an ASSUME of the harness\n"); fflush(vout); return 3; }
+            fflush(vout); return (checks_failed_this || verif_outcome >= 3) ? 1 : 0;   /* outcomes >= 3 are illegal exits */
         }
-        fprintf(stderr, "no such harness %s\n", argv[2]);
+        fprintf(vout, "no such harness %s\n", argv[2]);
         return 2;
     }
     if (argc >= 4 && !strcmp(argv[1], "fidelity")) {
@@ -81,7 +90,7 @@ int main(int argc, char **argv)
                 rng_s = (seed + 1) * 0x9E3779B97F4A7C15ull + (uint64_t)h * 1000003ull + (uint64_t)i * 7919ull + 1; rng(); rng();
                 sample_mode = (int)i;
                 hash_acc = 1469598103934665603ull; rejected = 0; checks_failed_this = 0; verif_outcome = 0;
-                int j = setjmp(verif_jb);
+                int j = sigsetjmp(verif_jb, 1);
                 if (j == 0) verif_harness_table[h].fn();
                 if (rejected) continue;
                 acc++;
@@ -90,10 +99,10 @@ int main(int argc, char **argv)
                 if (checks_failed_this) { cf++; if (first_fail < 0) first_fail = i; }
                 hh = (hh ^ hash_acc) * 1099511628211ull;
             }
-            printf("%s accepted=%ld aborted=%ld checks_failed=%ld first_fail=%ld hash=%016llx\n", verif_harness_table[h].name, acc, aborted, cf, first_fail, (unsigned long long)hh);
+            fprintf(vout, "%s accepted=%ld aborted=%ld checks_failed=%ld first_fail=%ld hash=%016llx\n", verif_harness_table[h].name, acc, aborted, cf, first_fail, (unsigned long long)hh);
         }
-        return 0;
+        fflush(vout); return 0;
     }
-    fprintf(stderr, "usage: %s fidelity <seed> <n> | replay <harness>\n", argv[0]);
+    fprintf(vout, "usage: %s fidelity <seed> <n> | replay <harness>\n", argv[0]);
     return 2;
 }
